@@ -151,6 +151,28 @@ namespace hv
         }
     };
 
+    // key-set reader of a dictionary argument (keys_ and a structural mirror of the dictionary itself), as a sub-graph
+    struct SubKeys
+    {
+        static constexpr auto name = "subkeys";
+        static Port<TS<Int>> compose(Wiring &w, Port<S_TSD> d, Scalar<"uid", Int> uid)
+        {
+            auto ks = wire<stdlib::keys_>(w, d).template as<TSS<Int>>();
+            wire<CMirror<S_TSS>>(w, ks, uid.value());
+            wire<CMirror<S_TSD>>(w, d, Int{uid.value() + 1});
+            // (a key-set projection of a boundary dictionary cannot be a nested graph's RESULT: the engine refuses it at start)
+            return wire<stdlib::const_, TS<Int>>(w, Int{0});
+        }
+    };
+    struct SubKeys2
+    {
+        static constexpr auto name = "subkeys2";
+        static Port<TS<Int>> compose(Wiring &w, Port<S_TSD> d, Scalar<"uid", Int> uid)
+        {
+            return nested_<SubKeys>(w, d, uid.value()).template as<TS<Int>>();
+        }
+    };
+
     // WiredFn-able sub-graphs (no scalars): template index selects the program "fn<K>".
     template <int K>
     struct Fn1
